@@ -81,9 +81,13 @@ class BaseGraph(object):
             for res in state:
                 for inner in self._get_state_names(res):
                     yield inner
+        elif hasattr(state, "name"):
+            # enum paths must be resolved from the root and not from the scope of a running nested transition
+            with self.machine():
+                path = self.machine._get_enum_path(state)
+            yield self.machine.state_cls.separator.join(path)
         else:
-            yield self.machine.state_cls.separator.join(self.machine._get_enum_path(state))\
-                if hasattr(state, "name") else state
+            yield state
 
     def _transition_label(self, tran):
         edge_label = tran.get("label", tran["trigger"])
